@@ -69,14 +69,52 @@ func NewWithErr(baseFS avfs.VFS, basePath string) (*BasePathFS, error) {
 
 // FromBasePath returns a BasePathFS path from an internal path.
 // When the base path is "/base/path", FromBasePath("/base/path/tmp") returns "/tmp".
+// It panics if path is neither the base path nor a path below the base path.
 func (vfs *BasePathFS) FromBasePath(path string) string {
-	if !strings.HasPrefix(path, vfs.basePath) {
+	if !vfs.hasBasePath(path) {
 		panic("path must start with " + vfs.basePath + " : " + path)
 	}
 
 	vl := avfs.VolumeNameLen(vfs, path)
 
-	return vfs.Join(path[:vl], path[len(vfs.basePath):], string(vfs.PathSeparator()))
+	return vfs.Join(path[:vl]+string(vfs.PathSeparator()), path[len(vfs.basePath):])
+}
+
+// fromBasePath returns a BasePathFS path from a path returned by the base file system.
+// A path that is not below the base path can't be expressed as a BasePathFS path, it is returned unchanged.
+func (vfs *BasePathFS) fromBasePath(path string) string {
+	if !vfs.hasBasePath(path) {
+		return path
+	}
+
+	return vfs.FromBasePath(path)
+}
+
+// hasBasePath reports whether path is the base path or a path below the base path.
+func (vfs *BasePathFS) hasBasePath(path string) bool {
+	rest, ok := strings.CutPrefix(path, vfs.basePath)
+	if !ok {
+		return false
+	}
+
+	if rest == "" || vfs.IsPathSeparator(rest[0]) {
+		return true
+	}
+
+	// A root directory ("/" or "C:\") already ends with a separator.
+	l := len(vfs.basePath)
+
+	return l > 0 && vfs.IsPathSeparator(vfs.basePath[l-1])
+}
+
+// curDir returns the current directory of the BasePathFS from the current directory of the base file system.
+// It is the root directory when the current directory of the base file system is not below the base path.
+func (vfs *BasePathFS) curDir(baseDir string) string {
+	if !vfs.hasBasePath(baseDir) {
+		baseDir = vfs.basePath
+	}
+
+	return vfs.FromBasePath(baseDir)
 }
 
 // FromPathError restore paths in fs.PathError if necessary.
@@ -86,7 +124,7 @@ func (vfs *BasePathFS) FromPathError(err error) error {
 		return err
 	}
 
-	return &fs.PathError{Op: e.Op, Path: vfs.FromBasePath(e.Path), Err: e.Err}
+	return &fs.PathError{Op: e.Op, Path: vfs.fromBasePath(e.Path), Err: e.Err}
 }
 
 // FromLinkError restore paths in os.LinkError if necessary.
@@ -96,7 +134,7 @@ func (vfs *BasePathFS) FromLinkError(err error) error {
 		return err
 	}
 
-	return &os.LinkError{Op: e.Op, Old: vfs.FromBasePath(e.Old), New: vfs.FromBasePath(e.New), Err: e.Err}
+	return &os.LinkError{Op: e.Op, Old: vfs.fromBasePath(e.Old), New: vfs.fromBasePath(e.New), Err: e.Err}
 }
 
 // ToBasePath transforms a BasePathFS path to an internal path.
